@@ -382,6 +382,11 @@ class C12:
                         expected_errors.append((line_of[ri], text))
                         if tb.get('encoding') != text:
                             add_v('error-token-altered', 'error-token-altered', text, tb.get('encoding'), row=ri, col=ci)
+                        # the token that sits in the tree is the reported one: same line, ERROR category, visible
+                        want_attrs = {'category': 'TokenCategory.ERROR', 'hidden': False, 'line': line_of[ri]}
+                        got_attrs = {k: tb.get(k) for k in want_attrs}
+                        if got_attrs != want_attrs and not (blank and got_attrs['line'] != want_attrs['line']):
+                            add_v('error-token-altered', 'error-token-altered/attributes', want_attrs, got_attrs, row=ri, col=ci, cell=text)
                     elif f['family'] == 'strict':
                         add_v('error-not-reported', 'error-not-reported/' + f['kind'], {'error for': text}, tb, row=ri, col=ci, header=hdr, kind=f['kind'])
                         masked.add((ri, ci))
@@ -393,7 +398,8 @@ class C12:
                     if is_err:
                         add_v('spurious-error', 'spurious-error/non-kern-spine', verbatim, tb, row=ri, col=ci, header=hdr)
                         expected_errors.append((line_of[ri], text))
-                    elif tb != verbatim:
+                    elif not (isinstance(tb, dict) and tb.get('encoding') == text and tb.get('category') == verbatim['category'] and not tb.get('hidden')):
+                        # (class names are not compared: a dedicated LyricsToken subclass would be a legitimate refactor)
                         self._classify_tail(createImporter, hdr, f, tb, ri, ci, add_v, masked, verbatim=verbatim)
         # --- (b) the error list
         got = [(e.line, e.encoding) for e in bad_err]
